@@ -4,11 +4,15 @@ C02 — PROPERTY THEOREMS.  "Timers never fire early, never skip, never fire aft
 All theorems quantify over EVERY execution of the model from `init`: any number of timer
 objects, any interleaving of API calls made outside callbacks (`api`), clock advances,
 loop passes, any callback scripts (init/enable/disable/destroy of any object, including
-self), and any tie-break among equal deadlines (`fire tok` is enabled for every due record
-of minimal deadline).  `exec init sts = some s` says that `sts` is such an execution.
+self; creation of new timers with their own callback scripts; TimerPool calls), and any
+tie-break among equal deadlines (`fire tok` is enabled for every due record of minimal
+deadline).  `exec init sts = some s` says that `sts` is such an execution.
+Sections: timer core (round 1) · termination of a pass and exact catch-up count · TimerPool.
 -/
 import TboxModel.C02.Proofs
 import TboxModel.C02.Dead
+import TboxModel.C02.Catchup
+import TboxModel.C02.PoolProofs
 namespace Tbox.C02
 
 /-- Master statement: every callback ever made is legitimate (see `FiredOk`). -/
@@ -91,6 +95,303 @@ theorem C02_reenable_fresh (s : State) (j : Nat) (ha : (s.obj j).alive = true)
   simp only [ha, hi, hd, Bool.not_true, Bool.false_eq_true, ↓reduceIte]
   exact ⟨_, List.mem_cons_self, rfl, rfl, rfl, rfl, by simp [State.obj, State.setObj]⟩
 
+
+/-! ### termination of a pass and exact catch-up count (intervals ≥ 1) -/
+
+/-- **PosIntervals is an invariant**: in an execution whose `init`/`doAfter`/`doEvery` calls — made
+outside callbacks or inside any callback script, at any nesting depth — all have ms ≥ 1
+(`posSteps`, decidable), every heap record and every initialised object has interval ≥ 1. -/
+theorem C02_pos_intervals (sts : List Step) (s : State) (he : exec init sts = some s) (hp : posSteps sts = true) :
+    PosIntervals s :=
+  (exec_good init sts init_good hp s he).2
+
+/-- **one loop iteration strictly decreases μ** = Σ over due records of ((t − expired)/interval + 1):
+the served record loses one unit (or leaves, if one-shot), and nothing its callback script does
+— disable, destroy, re-initialise, enable, create, TimerPool calls, on any timer — adds a due
+record (a newly armed record expires at now + interval > t). -/
+theorem C02_fire_decreases (pre : List Step) (s : State) (tok : Nat) (hpos : posSteps pre = true)
+    (h1 : exec init pre = some s) (hv : valid s (.fire tok) = true) : mu (step s (.fire tok)) < mu s :=
+  (step_fire_mu s tok (exec_good init pre init_good hpos s h1) hv).2.2
+
+/-- **a pass terminates**: any sequence of loop iterations inside one pass — whatever tie-breaks and
+whatever the callbacks do — is at most μ long, μ taken when the sequence starts (e.g. right after
+`beginPass`); so `handleExpiredTimers` leaves its loop after at most
+Σ_{due r} ((t − r.expired)/r.interval + 1) callbacks. -/
+theorem C02_pass_terminates (pre : List Step) (toks : List Nat) (s s' : State) (hpos : posSteps pre = true)
+    (h1 : exec init pre = some s) (h2 : exec s (toks.map Step.fire) = some s') :
+    toks.length + mu s' ≤ mu s :=
+  (fires_bounded toks s s' (exec_good init pre init_good hpos s h1) h2).2.2
+
+/-- … and it is never stuck before that: while a pass runs, either nothing is due (`endPass`) or
+serving a record of minimal deadline is an enabled step. -/
+theorem C02_pass_progress (pre : List Step) (s : State) (t : Nat) (h1 : exec init pre = some s)
+    (hp : s.passNow = some t) (hne : valid s .endPass = false) : ∃ tok, valid s (.fire tok) = true :=
+  pass_progress s (exec_inv init pre init_inv s h1) t hp hne
+
+/-- The hypothesis cannot be dropped: a persistent timer of interval 0 (which `posSteps` excludes and
+the property does not cover, d ≥ 1) is served again and again with the same deadline; μ = 1 when
+the pass begins and still 1 after 25 iterations … -/
+def zeroDemo : List Step := [.newObj [], .api (.init 0 0 false), .api (.enable 0), .beginPass]
+
+theorem C02_pass_terminates_counterexample :
+    posSteps zeroDemo = false ∧
+    ((exec init zeroDemo).bind fun s => (exec s ((List.replicate 25 1).map Step.fire)).map
+      fun s' => (mu s, mu s', s'.log.length)) = some (1, 1, 25) := by
+  decide
+
+/-- … and after any number of iterations: the pass is endless in the model (as in the code). -/
+theorem C02_pass_endless_counterexample (n : Nat) :
+    ((exec init zeroDemo).bind fun s => exec s ((List.replicate n 1).map Step.fire)).isSome = true := by
+  have key : ∀ (n : Nat) (s : State) (k : Nat), s.passNow = some 1 →
+      s.timers = [{ tok := 1, owner := 0, expired := 1, interval := 0, oneshot := false, base := 1, k := k }] →
+      (s.obj 0).oneshot = false → (s.obj 0).script = [] →
+      (exec s ((List.replicate n 1).map Step.fire)).isSome = true := by
+    intro n
+    induction n with
+    | zero => intro s k _ _ _ _; rfl
+    | succ n ih =>
+      intro s k hp ht ho hs
+      have hf : findTok s 1 = some { tok := 1, owner := 0, expired := 1, interval := 0, oneshot := false, base := 1, k := k } := by
+        simp [findTok, ht]
+      have hv : valid s (.fire 1) = true := by simp [valid, hf, canFire, hp, ht]
+      simp only [List.replicate, List.map, exec, hv, ↓reduceIte, step, hf]
+      have hfe : ∀ r : Rec, r.owner = 0 → fire s r = fireHead s r := by
+        intro r h0; rw [fire_eq, h0, hs]; rfl
+      rw [hfe _ rfl]
+      refine ih _ (k + 1) ?_ ?_ ?_ ?_
+      · unfold fireHead; simp [ho, hp]
+      · unfold fireHead; simp [ho, ht]
+      · unfold fireHead; simp [ho]; simpa [State.obj] using ho
+      · unfold fireHead; simp [ho]; simpa [State.obj] using hs
+  have h0 : ∃ s, exec init zeroDemo = some s ∧ s.passNow = some 1 ∧
+      s.timers = [{ tok := 1, owner := 0, expired := 1, interval := 0, oneshot := false, base := 1, k := 0 }] ∧
+      (s.obj 0).oneshot = false ∧ (s.obj 0).script = [] := by
+    refine ⟨_, rfl, ?_, ?_, ?_, ?_⟩ <;> decide
+  obtain ⟨s, he, h1, h2, h3, h4⟩ := h0
+  rw [he]
+  exact key n s 0 h1 h2 h3 h4
+
+/-- **exact catch-up count**: a persistent timer whose record `r` is due (`r.expired ≤ t`) in a pass
+running at clock reading `t`, and which no callback of that pass disables, re-initialises, destroys
+or cancels — i.e. it is still armed under the same heap token when the pass ends (any such call
+frees the token, and tokens are never handed out twice) — is called back in that pass exactly
+⌊(t − r.expired)/r.interval⌋ + 1 times: its firing counter `k` advances by exactly that number,
+however the other timers' callbacks and the tie-breaks interleave. -/
+theorem C02_catchup_count (pre : List Step) (toks : List Nat) (s s' : State) (t : Nat) (r r' : Rec)
+    (h1 : exec init pre = some s) (hp : s.passNow = some t)
+    (h2 : exec s (toks.map Step.fire ++ [.endPass]) = some s')
+    (hr : r ∈ s.timers) (hper : r.oneshot = false) (hdue : r.expired ≤ t)
+    (hr' : r' ∈ s'.timers) (htok : r'.tok = r.tok) :
+    r'.k = r.k + ((t - r.expired) / r.interval + 1) ∧ r'.owner = r.owner ∧ r'.base = r.base ∧
+    r'.interval = r.interval := by
+  have hi := exec_inv init pre init_inv s h1
+  rw [exec_append] at h2
+  cases h3 : exec s (toks.map Step.fire) with
+  | none => simp [h3] at h2
+  | some s1 =>
+    simp only [h3, Option.bind_some, exec] at h2
+    split at h2
+    · rename_i hv
+      cases h2
+      have ok := hi.recs r hr
+      have ht0 : Track r.tok r.owner r.base r.interval r.k t s := by
+        refine ⟨ok.tokLt, ?_⟩
+        intro q hq hqt
+        have := tok_inj hi.nodup hq hr hqt
+        subst this
+        exact ⟨rfl, rfl, rfl, hper, Or.inl rfl⟩
+      obtain ⟨hi1, hp1, ht1⟩ := fires_track r.tok r.owner r.base r.interval r.k t toks s s1 hi hp ht0 h3
+      have hr1 : r' ∈ s1.timers := hr'
+      obtain ⟨e1, e2, e3, _, e5⟩ := ht1.recs r' hr1 htok
+      simp only [valid, hp1, List.all_eq_true, decide_eq_true_eq] at hv
+      have hend := hv r' hr1
+      rw [(hi1.recs r' hr1).deadline, e2, e3] at hend
+      exact ⟨catchup_arith r.base r.interval r.k r'.k t r.expired ok.deadline hdue hend e5, e1, e2, e3⟩
+    · cases h2
+
+
+/-! ### TimerPool (eventx/timer_pool.cpp): `Pool.doAfter / doEvery / doAt / cancel / cleanup` of the model
+
+`puSteps sts` (decidable) says that the execution uses timers only through the TimerPool: every API
+step and every act of every callback script, at any nesting depth, is doAfter / doEvery / cancel /
+cleanup (callbacks may create new pool timers — the re-arming pattern — and cancel any token, their
+own included, or call cleanup).  The token returned by doAfter / doEvery is the serial of the new
+TimerEvent (`s.nObjs`); `nums log j` lists the firing numbers of `j`'s callbacks, newest first, and
+`down c = [c, …, 1]`. -/
+
+/-- **doAfter: exactly once, not before t + d, unless cancelled first (then never).**  After
+`doAfter(d, u)` at clock reading `t = s.now`, in every TimerPool-only continuation: the callback has
+run at most once; every run was in a pass whose clock reading is ≥ t + d; it has run once, or its
+token is still live (still pending), or it was retired by a successful `cancel` / by `cleanup`
+without ever running; and once a pass that read the clock at t' ≥ t + d has ended it is not pending
+any more: it ran exactly once, or never and was cancelled. -/
+theorem C02_pool_doAfter_once (pre post : List Step) (s s' : State) (d : Nat) (u : List Act)
+    (hpre : puSteps pre = true) (hu : puList u = true) (hpost : puSteps post = true)
+    (h1 : exec init pre = some s) (h2 : exec s (.api (.doAfter d u) :: post) = some s') :
+    (Pool.doAfter s d u).2 = s.nObjs ∧
+    (s'.log.filter (fun e => e.obj == s.nObjs)).length ≤ 1 ∧
+    (∀ e ∈ s'.log, e.obj = s.nObjs → s.now + d ≤ e.passNow) ∧
+    ((s'.log.filter (fun e => e.obj == s.nObjs)).length = 1 ∨
+      ((s'.log.filter (fun e => e.obj == s.nObjs)).length = 0 ∧ (Pool.live s' s.nObjs = true ∨ s.nObjs ∈ s'.killed))) ∧
+    (∀ t', s'.passNow = some t' → valid s' .endPass = true → s.now + d ≤ t' →
+      (s'.log.filter (fun e => e.obj == s.nObjs)).length = 1 ∨
+      ((s'.log.filter (fun e => e.obj == s.nObjs)).length = 0 ∧ s.nObjs ∈ s'.killed)) := by
+  have hi := exec_inv init pre init_inv s h1
+  have hx := exec_aux init pre init_inv init_aux s h1
+  have hso := exec_sok init pre hpre init_inv init_sok s h1
+  simp only [exec] at h2
+  split at h2
+  · rename_i hv
+    have hpt : PT s.nObjs s.now d true .armed (step s (.api (.doAfter d u))) := add_PT s d true u hu hi hx
+    have hst : (Step.api (.doAfter d u)).pu = true := by simpa [Step.pu, Act.pu] using hu
+    have hi1 := step_inv s _ hi hv
+    obtain ⟨ph, hph, hp⟩ := exec_PT post _ hpost hi1 (step_sok s _ hst hi hv hso) hpt (by simp) s' h2
+    have hi' := exec_inv _ post hi1 s' h2
+    obtain ⟨_, hc⟩ := PT_count hi' hp hph
+    rw [← nums_length]
+    refine ⟨rfl, ?_, fun e he ho => (PT_not_early hi' hp e he ho).2.1, ?_, ?_⟩
+    · rcases hc rfl with h | h <;> simp [h]
+    · rcases hc rfl with h | h
+      · exact Or.inl (by simp [h])
+      · exact Or.inr ⟨by simp [h.1], h.2⟩
+    · intro t' hp' hend hle
+      rcases PT_passEnd hi' hp hph hp' hend hle with h | h
+      · exact Or.inl (by simp [h])
+      · exact Or.inr ⟨by simp [h.1], h.2⟩
+  · cases h2
+
+/-- **doEvery: the n-th callback is not before t + n·d.**  After `doEvery(d, u)` at clock reading
+`t = s.now`, in every TimerPool-only continuation the callbacks of the new timer are numbered
+consecutively c, …, 1 (newest first — none skipped, none repeated) and the one numbered n ran in a
+pass whose clock reading is ≥ t + n·d. -/
+theorem C02_pool_doEvery_nth (pre post : List Step) (s s' : State) (d : Nat) (u : List Act)
+    (hpre : puSteps pre = true) (hu : puList u = true) (hpost : puSteps post = true)
+    (h1 : exec init pre = some s) (h2 : exec s (.api (.doEvery d u) :: post) = some s') :
+    (Pool.doEvery s d u).2 = s.nObjs ∧
+    (∃ c, nums s'.log s.nObjs = down c) ∧
+    (∀ e ∈ s'.log, e.obj = s.nObjs → s.now + e.n * d ≤ e.passNow) := by
+  have hi := exec_inv init pre init_inv s h1
+  have hx := exec_aux init pre init_inv init_aux s h1
+  have hso := exec_sok init pre hpre init_inv init_sok s h1
+  simp only [exec] at h2
+  split at h2
+  · rename_i hv
+    have hpt : PT s.nObjs s.now d false .armed (step s (.api (.doEvery d u))) := add_PT s d false u hu hi hx
+    have hst : (Step.api (.doEvery d u)).pu = true := by simpa [Step.pu, Act.pu] using hu
+    have hi1 := step_inv s _ hi hv
+    obtain ⟨ph, hph, hp⟩ := exec_PT post _ hpost hi1 (step_sok s _ hst hi hv hso) hpt (by simp) s' h2
+    have hi' := exec_inv _ post hi1 s' h2
+    exact ⟨rfl, (PT_count hi' hp hph).1, fun e he ho => (PT_not_early hi' hp e he ho).1⟩
+  · cases h2
+
+/-- **every pool timer, also those created from inside callbacks (re-arming pattern).**  In a
+TimerPool-only execution every timer object `j` ever created has a creation time `t`, a delay/period
+`d` and a mode such that all its callbacks carry that enablement, are numbered consecutively,
+the n-th ran not before t + n·d, and a doAfter timer ran at most once — exactly once unless its
+token is still live or was retired by cancel/cleanup before it ran. -/
+theorem C02_pool_all_timers (sts : List Step) (s : State) (hpu : puSteps sts = true) (he : exec init sts = some s) :
+    ∀ j, j < s.nObjs → ∃ t d os,
+      (∀ e ∈ s.log, e.obj = j → e.base = t ∧ e.interval = d ∧ e.oneshot = os ∧ t + e.n * d ≤ e.passNow) ∧
+      (∃ c, nums s.log j = down c) ∧
+      (os = true → nums s.log j = [1] ∨ (nums s.log j = [] ∧ (Pool.live s j = true ∨ j ∈ s.killed))) := by
+  have hi := exec_inv init sts init_inv s he
+  have hall := exec_allPT init sts hpu init_inv init_aux init_sok init_allPT s he
+  intro j hj
+  obtain ⟨t, d, os, ph, hph, hp⟩ := hall j hj
+  refine ⟨t, d, os, ?_, (PT_count hi hp hph).1, (PT_count hi hp hph).2⟩
+  intro e he' ho
+  obtain ⟨a, _, b, c, dd⟩ := PT_not_early hi hp e he' ho
+  exact ⟨b, c, dd, a⟩
+
+/-- **cancel returns true iff the token is live, and afterwards that timer never fires** (by
+`C02_destroyed_never_fires`) **and the token stays dead** — in every execution, TimerPool-only or
+not, whatever is done afterwards (new timers, passes, cleanup …); a cancel of a dead token changes
+nothing. -/
+theorem C02_pool_cancel (pre post : List Step) (s s' : State) (k : Nat)
+    (h1 : exec init pre = some s) (h2 : exec s (.api (.cancel k) :: post) = some s') :
+    (Pool.cancel s k).2 = Pool.live s k ∧
+    (Pool.live s k = false → (Pool.cancel s k).1 = s) ∧
+    (Pool.live s k = true → Pool.live s' k = false ∧
+      ∀ e ∈ s'.log.take (s'.log.length - s.log.length), e.obj ≠ k) := by
+  have hi := exec_inv init pre init_inv s h1
+  have hx := exec_aux init pre init_inv init_aux s h1
+  refine ⟨?_, ?_, ?_⟩
+  · simp only [Pool.cancel]; split <;> simp_all
+  · intro hl; simp only [Pool.cancel, hl]; rfl
+  · intro hl
+    simp only [exec] at h2
+    split at h2
+    · rename_i hv
+      obtain ⟨e1, _, e3, _, _⟩ := cancel_effect s k hl
+      have hlt : k < s.nObjs := hx.poolLt k ((live_iff s k).1 hl)
+      have hq := act_quiet s (.cancel k)
+      have hpre : exec init (pre ++ [.api (.cancel k)]) = some (step s (.api (.cancel k))) := by
+        rw [exec_append, h1]; simp only [Option.bind_some, exec, hv, ↓reduceIte]
+      have hnp : k ∉ (step s (.api (.cancel k))).pool := by
+        show k ∉ (Pool.cancel s k).1.pool
+        rw [e3, mem_filter_ne]; exact fun x => x.2 rfl
+      have hst := exec_stale _ post k (Nat.lt_of_lt_of_le hlt hq.2.1) hnp s' h2
+      refine ⟨by rw [Bool.eq_false_iff]; intro h; exact hst.2 ((live_iff s' k).1 h), ?_⟩
+      have := C02_destroyed_never_fires _ post _ s' k hpre h2 (Nat.lt_of_lt_of_le hlt hq.2.1) e1
+      have hlog : (step s (.api (.cancel k))).log = s.log := hq.1
+      rw [hlog] at this
+      exact this
+    · cases h2
+
+/-- **after cleanup no pool timer ever fires and stale tokens stay dead**: every token live when
+`cleanup()` is called is dead afterwards for ever, and no callback is ever made again on its timer —
+whatever follows (new pool timers get new tokens). -/
+theorem C02_pool_cleanup (pre post : List Step) (s s' : State)
+    (h1 : exec init pre = some s) (h2 : exec s (.api .cleanup :: post) = some s') :
+    ∀ k, Pool.live s k = true → Pool.live s' k = false ∧
+      ∀ e ∈ s'.log.take (s'.log.length - s.log.length), e.obj ≠ k := by
+  have hi := exec_inv init pre init_inv s h1
+  have hx := exec_aux init pre init_inv init_aux s h1
+  intro k hl
+  simp only [exec] at h2
+  split at h2
+  · rename_i hv
+    obtain ⟨e1, _, _, _, e5⟩ := cleanup_effect s
+    have hkp := (live_iff s k).1 hl
+    have hlt : k < s.nObjs := hx.poolLt k hkp
+    have hq := act_quiet s .cleanup
+    have hpre : exec init (pre ++ [.api .cleanup]) = some (step s (.api .cleanup)) := by
+      rw [exec_append, h1]; simp only [Option.bind_some, exec, hv, ↓reduceIte]
+    have hnp : k ∉ (step s (.api .cleanup)).pool := by
+      show k ∉ (Pool.cleanup s).pool
+      rw [e1]; simp
+    have hst := exec_stale _ post k (Nat.lt_of_lt_of_le hlt hq.2.1) hnp s' h2
+    refine ⟨by rw [Bool.eq_false_iff]; intro h; exact hst.2 ((live_iff s' k).1 h), ?_⟩
+    have := C02_destroyed_never_fires _ post _ s' k hpre h2 (Nat.lt_of_lt_of_le hlt hq.2.1) (e5 k hkp hlt)
+    have hlog : (step s (.api .cleanup)).log = s.log := hq.1
+    rw [hlog] at this
+    exact this
+  · cases h2
+
+/-- **stale tokens stay dead** (tokens are never reissued): a serial that was handed out and is not a
+live token never becomes one again, in any execution. -/
+theorem C02_pool_stale_token (post : List Step) (s s' : State) (k : Nat)
+    (h2 : exec s post = some s') (hk : k < s.nObjs) (hd : Pool.live s k = false) :
+    Pool.live s' k = false := by
+  have hnp : k ∉ s.pool := fun h => by rw [(live_iff s k).2 h] at hd; cases hd
+  have := exec_stale s post k hk hnp s' h2
+  rw [Bool.eq_false_iff]; intro h; exact this.2 ((live_iff s' k).1 h)
+
+/-- **cancel / cleanup / doAfter / doEvery from inside callbacks keep the invariant** — also a
+callback cancelling its own timer or calling cleanup while it runs: the state after any callback
+script satisfies `Inv` again (so all the C02 theorems above apply to executions that contain such
+callbacks; this is the instance of `exec_inv` for one callback), every live token denotes an
+existing timer object and every logged callback an existing object. -/
+theorem C02_pool_callbacks_keep_inv (pre : List Step) (s : State) (r : Rec) (h1 : exec init pre = some s)
+    (hc : canFire s r = true) : Inv (fire s r) ∧ Aux (fire s r) :=
+  ⟨fire_inv s r (exec_inv init pre init_inv s h1) hc,
+   fire_aux s r (exec_inv init pre init_inv s h1) hc (exec_aux init pre init_inv init_aux s h1)⟩
+
+/-- `doAt(tp)` is `doAfter(tp − wall clock)` for time points in the future -/
+theorem C02_pool_doAt (s : State) (wall tp : Int) (u : List Act) (h : 1 ≤ tp - wall) :
+    Pool.doAt s wall tp u = some (Pool.doAfter s (tp - wall).toNat u) ∧ 1 ≤ (tp - wall).toNat := by
+  simp only [Pool.doAt, h, ↓reduceIte, true_and]; omega
+
 /-! ### non-vacuity: concrete executions that satisfy the hypotheses -/
 
 /-- two timers, a persistent one (period 3) whose callback disables the one-shot (interval 5),
@@ -107,5 +408,34 @@ example : (exec init demo).map (fun s => s.log.map (fun e => (e.obj, e.n, e.dead
     some [(0, 2, 7), (0, 1, 4)] := by decide
 /-- serving the one-shot first (tie-break the other way) is rejected only because it is not minimal -/
 example : (exec init (demo.take 8 ++ [.fire 2])).isSome = false := by decide
+
+/-- `C02_pass_terminates` / `C02_catchup_count` are not vacuous: `demo` has all intervals ≥ 1; when its
+late pass begins μ = 2 + 1 (persistent timer due twice, one-shot once); two iterations happen (the
+one-shot is disabled by the first callback); the persistent record (token 1, first due at 4, period 3,
+t = 8) goes from k = 0 to k = 0 + ((8 − 4)/3 + 1) = 2 under the same token. -/
+example : posSteps demo = true := by decide
+example : (exec init (demo.take 8)).map (fun s => (mu s, s.passNow)) = some (3, some 8) := by decide
+example : (exec init (demo.take 8)).map (fun s => s.timers.map fun r => (r.tok, r.k, r.expired, r.oneshot)) =
+    some [(2, 0, 6, true), (1, 0, 4, false)] := by decide
+example : (exec init demo).map (fun s => s.timers.map fun r => (r.tok, r.k, r.expired)) = some [(1, 2, 10)] := by decide
+
+/-- TimerPool theorems are not vacuous.  `poolDemo`: doAfter(5) (token 0) and doEvery(2) (token 1) whose
+callback cancels token 0; the loop wakes at t = 5: token 1 fires for deadlines 3 and 5, the first
+callback cancels token 0 (returns true), which never fires.  `rearmDemo`: a doAfter(2) callback
+re-arms a doAfter(3): the second timer (token 1, created at t = 3 inside the callback) fires at 6. -/
+def poolDemo : List Step :=
+  [.api (.doAfter 5 []), .api (.doEvery 2 [.cancel 0]), .advance 4, .beginPass, .fire 2, .fire 2, .endPass,
+   .advance 10, .beginPass, .fire 2, .fire 2, .fire 2, .fire 2, .fire 2, .endPass, .api (.cancel 0), .api .cleanup]
+def rearmDemo : List Step :=
+  [.api (.doAfter 2 [.doAfter 3 []]), .advance 2, .beginPass, .fire 1, .endPass, .advance 3, .beginPass, .fire 2, .endPass]
+
+example : puSteps poolDemo = true ∧ puSteps rearmDemo = true ∧ posSteps poolDemo = true := by decide
+example : (exec init poolDemo).map (fun s => (s.log.map fun e => (e.obj, e.n, e.passNow), s.killed, s.pool)) =
+    some ([(1, 7, 15), (1, 6, 15), (1, 5, 15), (1, 4, 15), (1, 3, 15), (1, 2, 5), (1, 1, 5)], [1, 0], []) := by decide
+example : (exec init (poolDemo.take 3)).map (fun s => (Pool.live s 0, (Pool.cancel s 0).2, (Pool.cancel s 7).2)) =
+    some (true, true, false) := by decide
+example : (exec init rearmDemo).map (fun s => (s.log.map fun e => (e.obj, e.n, e.base, e.passNow), s.nObjs, s.pool)) =
+    some ([(1, 1, 3, 6), (0, 1, 1, 3)], 2, []) := by decide
+example : (Pool.doAt init 1000 1007 []).map (fun p => (p.2, p.1.timers.map (·.expired))) = some (0, [8]) := by decide
 
 end Tbox.C02
